@@ -553,9 +553,14 @@ def main(chk):
     for d in missing:
         chk.fail("singleton %s is declared empty in package object but never filled by init()" % d,
                  {"obligation": "gen/GuardData.v: singletons_ok", "singleton": d}, klass="C01:singleton:" + d, no_input=not panics)
-    for k in noneed:
-        chk.fail("internal function %s indexes its slice without any bound the checker can establish" % k,
-                 {"obligation": "gen/GuardData.v: internals_ok", "entry": k}, klass="C01:internal:" + k, no_input=True)
+    # An internal function (called by Go code only) for which no finite lower bound on the length of its slice makes the
+    # checker accept its body (e.g. it indexes one slice by the range key of another) is NOT a violation by itself: the
+    # property is about the arguments that arrive from Pangaea, and every call site that hands received arguments to such a
+    # function is translated to SUseFrom 4000, which no guard makes safe — so a built-in that does so is in BadB above.
+    # The same code inlined after `args = paddedArgs(args, params)` is outside the tracking as well. They are listed in the
+    # evidence (guard_translator.internal_without_bound); the sweep is what exercises them.
+    if noneed:
+        chk.note("internal functions without a finite bound (call sites passing received arguments are treated as unsafe): %s" % noneed)
     if not inst_ok and not bad and not missing:
         problems.append("gen/GuardData.v does not check: " + coq_out[-600:])
     if not ok:
